@@ -6,9 +6,9 @@
 //      root=  the resources of the root page-tree node (RootPageTreeNode has no accessors for count/kids);
 //      then the entries of dom.pages() in its iteration order (BTreeMap<ObjectId,_>: sorted by id);
 //      <res>  = "~" (a node without resources in scope) | "-" (no fonts) |
-//               <hexname>:<hexbasefont>:<enc>:<d|->,…   in BTreeMap order of the font-resource names
+//               <hexname>:<hexbasefont>:<enc>:<d|->:e=<t|f|u>,…   in BTreeMap order of the font-resource names
 //               (<enc>: - none, R MacRoman, E MacExpert, W WinAnsi, U<hex> unknown name, D dictionary;
-//                d = a font descriptor is attached)
+//                d = a font descriptor is attached; e = FontDictionary::is_embedded() True/False/Unknown)
 //      <kids> = "-" | <num>.<gen>,…     <contents> = "-" | <hex content of stream>,… in Page::contents() order
 //   err <PageDOMError variant>[:<num>.<gen> | :<hex>]
 //   noroot                                 the root id is not defined in the context
@@ -29,7 +29,7 @@ use implrun::pdfobj::read_ctx;
 use parsley_rust::pcore::parsebuffer::LocatedVal;
 use parsley_rust::pdf_lib::pdf_obj::{ObjectId, PDFObjContext, PDFObjT};
 use parsley_rust::pdf_lib::pdf_page_dom::{
-    to_page_dom, FontEncoding, PageDOMError, PageKid, Resources,
+    to_page_dom, FeaturePresence, FontEncoding, PageDOMError, PageKid, Resources,
 };
 use std::io::{self, BufRead, BufReader, Write};
 use std::process::{Child, ChildStdin, Command, Stdio};
@@ -83,14 +83,20 @@ fn show_res(r: &Resources) -> String {
             Some(FontEncoding::Dict(_)) => "D".to_string(),
         };
         // the descriptor field is private; is_symbolic() is Unknown exactly when there is none
-        let has_descr = fd.is_symbolic()
-            != parsley_rust::pdf_lib::pdf_page_dom::FeaturePresence::Unknown;
+        let has_descr = fd.is_symbolic() != FeaturePresence::Unknown;
+        // FontDictionary::is_embedded(): what pdf_printer's file_extract_text rejects a page on
+        let emb = match fd.is_embedded() {
+            FeaturePresence::True => "t",
+            FeaturePresence::False => "f",
+            FeaturePresence::Unknown => "u",
+        };
         parts.push(format!(
-            "{}:{}:{}:{}",
+            "{}:{}:{}:{}:e={}",
             hex0(k.as_slice()),
             hex0(fd.basefont()),
             enc,
-            if has_descr { "d" } else { "-" }
+            if has_descr { "d" } else { "-" },
+            emb
         ));
     }
     parts.join(",")
